@@ -11,13 +11,13 @@ OPS = {"check_assign": "assigning a value node: auto-update on => nothing outdat
        "check_restore": "restoring a saved state over an arbitrary current state gives exactly the saved values and flags"}
 
 
-NV = {"chain": 2, "diamond": 2, "dist": 4, "weak": 2}
-NC = {"chain": 4, "diamond": 4, "dist": 6, "weak": 4}
+NV = {"chain": 2, "diamond": 2, "dist": 4, "weak": 2, "dist2": 2}
+NC = {"chain": 4, "diamond": 4, "dist": 6, "weak": 4, "dist2": 4}
 
 
 def main():
     chk = Check("C01")
-    graphs = ["diamond", "weak"] if chk.tier == "quick" else ["chain", "diamond", "dist", "weak"]
+    graphs = ["diamond", "weak", "dist2"] if chk.tier == "quick" else ["chain", "diamond", "dist", "weak", "dist2"]
     conds = []
     to = 900 if chk.tier == "quick" else 3600
     for g in graphs:
@@ -26,8 +26,12 @@ def main():
                 conds.append(Cond("vf.ch.h_c01", "check_assign", f"[graph {g}, input {t}, auto-update {'on' if a else 'off'}] {OPS['check_assign']}; the cache invariant is preserved", timeout_s=to,
                                   env={"GRAPH": g, "TGT": str(t), "AUTO": str(a)}, signature=f"{g}:check_assign"))
         for t in range(NC[g]):
+            if chk.tier == "quick" and g == "dist2" and t == 1:
+                continue
             conds.append(Cond("vf.ch.h_c01", "check_update_target", f"[graph {g}, target {t}] {OPS['check_update_target']}; the cache invariant is preserved", timeout_s=to,
                               env={"GRAPH": g, "TGT": str(t)}, signature=f"{g}:check_update_target"))
+        if chk.tier == "quick" and g == "dist2":
+            continue          # full update / toggle are covered on the other graphs in the quick tier
         for fn in ("check_update_all", "check_toggle_and_state") + (("check_restore",) if chk.tier != "quick" and NC[g] <= 4 else ()):
             conds.append(Cond("vf.ch.h_c01", fn, f"[graph {g}] {OPS[fn]}; the cache invariant is preserved", timeout_s=to, env={"GRAPH": g}, signature=f"{g}:{fn}"))
     run_conditions(chk, conds)
@@ -36,7 +40,7 @@ def main():
     chk.bounds += ["graphs of <= 10 nodes; node values unbounded symbolic integers, outdated flags and auto-update symbolic; ONE operation from an arbitrary invariant state (any finite history by induction)",
                    "integer-linear node functions (a stale value differs from the fresh one for some input)"]
     chk.enumerated += [f"graph {g}: " + {"chain": "chain through a transient calculation", "diamond": "two inputs sharing an intermediate calculation", "dist": "strong variables with distributions, value proxies, model-level totals",
-                                         "weak": "weak variable (computed value) with a distribution: `at` edge to a calculation"}[g] for g in graphs]
+                                         "weak": "weak variable (computed value) with a distribution: `at` edge to a calculation", "dist2": "observed strong variable with a distribution (value proxy), derived variable, model totals"}[g] for g in graphs]
     chk.assume("invariant: an up-to-date caching node holds f(current inputs) and all its caching ancestors (through transient nodes) are up to date", "outdatedness only ever arises from assignments, so 'evaluated only if outdated or downstream of the assigned node' is the property's 'only if an ancestor was assigned since'",
                "non-integer values, node functions that raise, and LieselInterface's flag clearing (C03/C09) are outside")
     return chk.finish(technique=TECH)
